@@ -124,6 +124,7 @@ def add_dyndep(draw, g, f_dd_validation=True):
             e['dd_ins'] = draw(st.lists(st.sampled_from(earlier), max_size=2, unique=True)) if earlier else []
             e['dd_outs'] = ["ddo%d_%d" % (d, i)] if draw(st.integers(0, 1)) == 1 else []
             e['dd_restat'] = draw(st.integers(0, 3)) == 3
+            e['dd_spell'] = draw(st.sampled_from([0, 0, 1, 2, 3]))    # how the dyndep file spells this statement's paths
             new_outs += e['dd_outs']
         if produced:
             src = "ddsrc%d" % d
@@ -140,7 +141,10 @@ def add_dyndep(draw, g, f_dd_validation=True):
         def plain(out, vals):
             return dict(outs=[out], iouts=[], phony=False, exp=[src], imp=[], oo=[], vals=vals, restat=False, generator=False,
                         deps='', hidden=[], variant='v0', pool='', rsp=None, dd=None, depfile_layout=0)
-        edges.insert(0, plain('ddv_check', []))
+        g['srcs'].append('sv')       # the validation reads a source of its own: it can be dirty while everything else is clean
+        chk = plain('ddv_check', [])
+        chk['exp'] = ['sv']
+        edges.insert(0, chk)
         edges.insert(0, plain('ddv_hdr', ['ddv_check']))
         e['dd_ins'] = list(e.get('dd_ins', [])) + ['ddv_hdr']
     for pe in producers:
